@@ -237,10 +237,10 @@ def expected(d):
             lb, rb = bits_of(m, lhs, nets), bits_of(m, rhs, nets)
             w = min(len(lb), len(rb))
             nm = "SDN_VERILOG_ASSIGNMENT_%d_%d" % (w, k)
-            # the reader pairs the bits most-significant first and numbers the assign pins in that order
+            # bit j of the left side is driven by bit j of the right side (pin j of ports o and i)
             for j in range(w):
-                touch(lb[len(lb) - 1 - j]).add(("inst", nm, "o", j))
-                touch(rb[len(rb) - 1 - j]).add(("inst", nm, "i", j))
+                touch(lb[j]).add(("inst", nm, "o", j))
+                touch(rb[j]).add(("inst", nm, "i", j))
         mods[m["name"]] = {
             "ports": [(p["name"], DIRS[p["dir"]], p["width"], 0) for p in m["ports"]],
             "cables": dict((n, (hi - lo + 1, lo)) for n, (lo, hi) in cables.items()),
